@@ -533,6 +533,26 @@ def build_arg(spec, layout="C", fill=None):
     return spec
 
 
+def build_special(spec):
+    """degenerate argument descriptors used by C11: {"special": kind, ...}"""
+    if not (isinstance(spec, dict) and "special" in spec):
+        return spec
+    k = spec["special"]
+    if k == "zeros":
+        return np.zeros(spec["shape"], dtype=np.dtype(spec.get("dtype", "float64")))
+    if k == "scalar0d":
+        return np.array(3, dtype=np.dtype(spec.get("dtype", "float64")))
+    if k == "object":
+        return np.array([[None, 1], [2, 3]], dtype=object)
+    if k == "none":
+        return None
+    if k == "list":
+        return [[1, 2], [3, 4]]
+    if k == "str":
+        return "abc"
+    raise ValueError(k)
+
+
 def canon(x):
     """Canonical, JSON-able form of a result (exact for ints/bools; floats via float.hex())."""
     if isinstance(x, tuple) or isinstance(x, list):
@@ -555,7 +575,7 @@ def canon(x):
     if x is None:
         return None
     if isinstance(x, slice):
-        return {"slice": [x.start, x.stop, x.step]}
+        return {"slice": [None if v is None else int(v) for v in (x.start, x.stop, x.step)]}
     return {"repr": repr(x)}
 
 
